@@ -357,3 +357,24 @@ def same_second_fee_lots(rng: random.Random, asset: str = "AAA") -> Dict[str, An
     b.dispose(later, rng.choice(("0.5", "1", "1.5")), rng.randint(50, 900), ho="Alice", ttype=rng.choice(("SELL", "GIFT")))
     b.dispose(later + timedelta(days=rng.randint(1, 500)), rng.choice(("0.5", "1")), rng.randint(50, 900), ho="Alice")
     return b.done(rng, shuffle=True)
+
+
+def same_instant_transfer_then_sale(rng: random.Random, asset: str = "AAA") -> Dict[str, Any]:
+    """Day- or minute-granular exports: a transfer into an account and a disposal from that account carry exactly the same
+    timestamp, and the account's earlier balance alone does not cover the disposal. The pinned tree credits the transfers of an
+    instant before it debits the instant's out-transactions, so it accepts such input (C16 assumption; chains of transfers
+    inside one instant stay unspecified and are not generated)."""
+    b = HB(asset=asset, exchanges=EXCHANGES[:3], holders=HOLDERS[:1])
+    holder = b.holders[0]
+    t = T(rng.randint(2016, 2022), rng.randint(1, 12), rng.randint(1, 28))
+    b.acquire(t, 10, rng.randint(50, 500), ex="Coinbase")
+    b.acquire(t + timedelta(days=5), 4, rng.randint(50, 500), ex="Coinbase", ttype="INTEREST")
+    day = t + timedelta(days=rng.randint(10, 400))
+    offset_a, offset_b = (0, 0) if rng.random() < 0.6 else rng.sample(list(OFFSETS), 2)
+    sent = Decimal(rng.choice((5, 6, 8)))
+    fee = Decimal(rng.choice(("0", "0.01")))
+    b.move(day, sent, sent - fee, rng.randint(50, 500), ("Coinbase", holder), ("Kraken", holder), offset=offset_a)
+    b.dispose(day, rng.choice((2, 3, sent - fee)), rng.randint(50, 500), ex="Kraken", ho=holder, offset=offset_b, ttype=rng.choice(("SELL", "GIFT", "DONATE")))
+    if rng.random() < 0.5:
+        b.dispose(day + timedelta(days=30), 1, rng.randint(50, 500), ex="Coinbase", ho=holder)
+    return b.done(rng, shuffle=rng.random() < 0.7)
